@@ -255,7 +255,8 @@ fn run_inner(harness: &str, vals: &[u8]) -> Result<Outcome, String> {
     let mut p = canon.clone();
     p.insert("client_id".into(), json!(if cid_ok { cid.clone() } else { "0000".to_string() }));
     if !(parse_ok && args_equal) {
-        let k = p.keys().find(|k| k.as_str() != "client_id").cloned();
+        // vals[9]: which of the step's parameters deviates (0 = the first)
+        let k = p.keys().filter(|k| k.as_str() != "client_id").nth(g(9) as usize).cloned();
         match k {
             Some(k) => {
                 let nv = deviate(&p[&k]);
